@@ -4,6 +4,7 @@ import (
 	"fmt"
 	"math"
 	"reflect"
+	"strings"
 
 	"github.com/unixpickle/model3d/fileformats"
 	"verif/harness/choice"
@@ -170,6 +171,19 @@ func runPLYGeneric(src *choice.Source, st *Stats) (fs []Finding) {
 		}
 		h.Elements = append(h.Elements, el)
 		shape += fmt.Sprintf(" c%d", min(int(el.Count), 2))
+	}
+	if src.Chance(1, 16) {
+		// (drawn after the header shape) a header line longer than any line buffer:
+		// an element or property name of thousands of characters
+		n := []int{4080, 4096, 4200, 70000}[src.Intn(4)] + src.Intn(40)
+		name := strings.Repeat("n", n)
+		el := h.Elements[src.Intn(len(h.Elements))]
+		if src.Chance(1, 2) {
+			el.Name = name
+		} else {
+			el.Properties[src.Intn(len(el.Properties))].Name = name
+		}
+		shape += " longname"
 	}
 	st.shape(shape)
 	var rows [][]fileformats.PLYValue
